@@ -25,22 +25,24 @@ Proof. exact line_comment_ends_line. Qed.
 Print Assumptions C12_line_comment_ends_line.
 
 (* Token layer (format_tokens / format_token / format_block over the whole Token enum and expression grammar), for ALL
-   token lists and options: the comment chunks carry every comment of the file, in source order (compared on their
-   non-whitespace characters: a comment chunk may start with the pending space of spc_if_next) -- unless a comment sits
-   in front of the `{` of a directive / label / import / `.define` block (known finding F-C12a).  wf_tokens are the
-   parser invariants (a bare Expression token only as a config value; an else block only with its else tag); the check
-   verifies them on every AST the real parser produces. *)
-Theorem C12_comments_in_order : forall o ts, wf_tokens ts = true -> Known_lbrace_trivia ts = false ->
+   token lists and ALL options: the comment chunks carry every comment of the file, in source order (compared on their
+   non-whitespace characters: a comment chunk may start with the pending space of spc_if_next).  wf_tokens are parser
+   invariants (a bare Expression / Config token only as a `.define` / config value, an else block only with its tag, no
+   trivia on `:`); the check verifies them on every AST the real parser produces.  The statement is unguarded since the
+   two defects that dropped comments were repaired (comments in front of `{`, dfe56f5; in front of import arguments,
+   7635ca8): the proof needs Gen.FmtRules.emits_lbrace_trivia = emits_import_arg_trivia = true, read off the source. *)
+Theorem C12_comments_in_order : forall o ts, wf_tokens ts = true ->
   nows (concat (chunk_comments (format_chunks o ts))) = nows (concat (all_comments ts)).
 Proof. exact comments_in_order. Qed.
 Print Assumptions C12_comments_in_order.
 
-(* F-C12a on the model: `.if 1 // c` NEWLINE `{ nop }` -- the file has one comment, the formatter emits none *)
-Theorem C12_lbrace_trivia_dropped_refuted : exists o ts,
+(* the former F-C12a on the model: `.if 1 // c` NEWLINE `{ nop }` -- a comment in front of `{` (class
+   Known_lbrace_trivia, kept as the classifier of the repaired defect) is emitted *)
+Theorem C12_lbrace_trivia_kept : exists o ts,
   wf_tokens ts = true /\ Known_lbrace_trivia ts = true /\
-  all_comments ts = [[47; 47; 32; 99]%N] /\ chunk_comments (format_chunks o ts) = [].
-Proof. exact lbrace_trivia_dropped. Qed.
-Print Assumptions C12_lbrace_trivia_dropped_refuted.
+  all_comments ts = [[47; 47; 32; 99]%N] /\ chunk_comments (format_chunks o ts) = [[47; 47; 32; 99]%N].
+Proof. exact lbrace_trivia_kept. Qed.
+Print Assumptions C12_lbrace_trivia_kept.
 
 (* Two statements are never emitted back to back (repaired defect: `lda foo lda bar` became `lda foolda bar`): between a
    statement and the next one -- unless the first is a label standing in front of its statement, which join_chunks
@@ -73,6 +75,3 @@ Print Assumptions C12_format_cmd_writes.
 (* non-vacuity *)
 Example C12_join_preserves_guard_needed : exists cs o, nows (join_chunks cs o) <> nows (chunks_text cs).
 Proof. exact join_preserves_needs_nonempty. Qed.
-Example C12_comments_example :
-  wf_tokens lbrace_witness = true /\ Known_lbrace_trivia (tl lbrace_witness) = false.
-Proof. vm_compute. split; reflexivity. Qed.
